@@ -164,29 +164,154 @@ class Body:
         return self.reachable_from(
             [s for s in self.succ(a) if (a, s) not in removed_edges], removed, removed_edges)
 
-    def find_path(self, starts, goals, removed=frozenset(), removed_edges=frozenset()):
-        """a shortest block path from any start to any goal avoiding `removed`; None if none."""
+    # -- variant knowledge (light path sensitivity): `L = Enum::Variant{..}` / `L = const bool`
+    # followed by `switch discr(L)` / `switch L` with no intervening write to L is resolved.
+    VARIANT_DISCR = {'std::option::Option::None': 0, 'std::option::Option::Some': 1,
+                     'std::result::Result::Ok': 0, 'std::result::Result::Err': 1,
+                     'std::ops::ControlFlow::Continue': 0, 'std::ops::ControlFlow::Break': 1}
+
+    def _trackable(self):
+        """locals whose address is never taken mutably (so writes are visible as direct assignments)"""
+        if getattr(self, '_trk', None) is None:
+            bad = set()
+            for b in self.blocks:
+                for s in b['s']:
+                    if s['k'] == 'assign':
+                        r = s['r']
+                        if r['k'] in ('ref', 'rawptr') and r.get('m') != 'shared' and len(r['p']) >= 1:
+                            # &mut L or &mut L.field: L may change behind our back
+                            if '*' not in r['p'][1:]:
+                                bad.add(r['p'][0])
+            self._trk = bad
+        return self._trk
+
+    def _block_effect(self, bi):
+        """(kills, gens, switch_info) for variant knowledge. gens: {local: discr value};
+        switch_info: (local, is_discr) if the terminator switches on discr(local) or on local itself."""
+        c = getattr(self, '_beff', None)
+        if c is None:
+            c = self._beff = {}
+        if bi in c:
+            return c[bi]
+        b = self.blocks[bi]
+        ops = []   # sequence of ('set', l, v) / ('kill', l) / ('copy', dst, src)
+        discr_of = {}
+        for s in b['s']:
+            if s['k'] == 'assign':
+                dst = s['p']
+                r = s['r']
+                if len(dst) == 1:
+                    l = dst[0]
+                    if r['k'] == 'agg' and r['ak'].startswith('Adt:'):
+                        v = self.VARIANT_DISCR.get(r['ak'][4:])
+                        ops.append(('set', l, v) if v is not None else ('kill', l))
+                    elif r['k'] == 'use' and 'i' in r['a'][0] and r['a'][0].get('ty') == 'bool':
+                        ops.append(('set', l, r['a'][0]['i']))
+                    elif r['k'] == 'use' and r['a'][0].get('o') in ('c', 'm') and len(r['a'][0]['p']) == 1:
+                        ops.append(('copy', l, r['a'][0]['p'][0]))
+                    elif r['k'] == 'discr' and len(r['p']) == 1:
+                        ops.append(('discr', l, r['p'][0]))
+                    else:
+                        ops.append(('kill', l))
+                else:
+                    ops.append(('kill', dst[0]))
+            elif s['k'] == 'setdiscr':
+                ops.append(('kill', s['p'][0]))
+        t = b['t']
+        sw = None
+        if t['k'] == 'switch' and t['a'].get('o') in ('c', 'm') and len(t['a']['p']) == 1:
+            sw = t['a']['p'][0]
+        post = []
+        if t['k'] == 'call' and len(t['d']) >= 1:
+            post.append(('kill', t['d'][0]))
+            for a in t['a']:
+                if a.get('o') == 'm' and len(a['p']) == 1:
+                    post.append(('kill', a['p'][0]))
+        elif t['k'] == 'drop':
+            post.append(('kill', t['p'][0]))
+        c[bi] = (ops, sw, post)
+        return c[bi]
+
+    def _step_knowledge(self, bi, kn):
+        """apply block bi to knowledge dict (tuple of sorted items) -> (allowed successor set or None, new knowledge)"""
+        ops, sw, post = self._block_effect(bi)
+        k = dict(kn)
+        trk_bad = self._trackable()
+        for op in ops:
+            if op[0] == 'set':
+                if op[1] not in trk_bad:
+                    k[op[1]] = op[2]
+                else:
+                    k.pop(op[1], None)
+            elif op[0] == 'kill':
+                k.pop(op[1], None)
+                for key in [x for x in k if isinstance(x, tuple) and x[1] == op[1]]:
+                    k.pop(key, None)
+            elif op[0] == 'copy':
+                if op[2] in k and op[1] not in trk_bad:
+                    k[op[1]] = k[op[2]]
+                else:
+                    k.pop(op[1], None)
+            elif op[0] == 'discr':
+                # l := discriminant of src
+                if op[2] in k:
+                    k[op[1]] = k[op[2]]
+                else:
+                    k.pop(op[1], None)
+        allowed = None
+        if sw is not None and sw in k:
+            t = self.blocks[bi]['t']
+            v = k[sw]
+            tgt = None
+            for val, tg in zip(t['vals'], t['ts']):
+                if val == v:
+                    tgt = tg
+            if tgt is None:
+                tgt = t['ts'][-1]
+            allowed = {tgt}
+        for op in post:
+            k.pop(op[1], None)
+        return allowed, tuple(sorted(k.items(), key=lambda x: str(x[0])))
+
+    def find_path(self, starts, goals, removed=frozenset(), removed_edges=frozenset(), sensitive=True):
+        """a shortest block path from any start to any goal avoiding `removed`; None if none.
+        With sensitive=True, branches on the discriminant of a local whose variant was fixed by a
+        dominating-on-this-path assignment are resolved (prunes infeasible paths such as
+        `x = None; ...; if let Some(..) = x`)."""
         goals = set(goals)
         prev = {}
         dq = deque()
         for s in starts:
             if s in removed:
                 continue
-            prev[s] = None
-            dq.append(s)
+            st = (s, ())
+            prev[st] = None
+            dq.append(st)
+        nstates = 0
         while dq:
-            x = dq.popleft()
+            st = dq.popleft()
+            x, kn = st
             if x in goals:
                 path = []
-                while x is not None:
-                    path.append(x)
-                    x = prev[x]
+                while st is not None:
+                    path.append(st[0])
+                    st = prev[st]
                 return path[::-1]
+            nstates += 1
+            if sensitive and nstates < 200000:
+                allowed, nk = self._step_knowledge(x, kn)
+            else:
+                allowed, nk = None, ()
             for s in self.succ(x):
-                if s in removed or s in prev or (x, s) in removed_edges:
+                if s in removed or (x, s) in removed_edges:
                     continue
-                prev[s] = x
-                dq.append(s)
+                if allowed is not None and s not in allowed:
+                    continue
+                ns = (s, nk)
+                if ns in prev:
+                    continue
+                prev[ns] = st
+                dq.append(ns)
         return None
 
     def return_blocks(self):
